@@ -384,6 +384,116 @@ fn mutate(r: &mut Rng, s: &str) -> String {
     v.into_iter().collect()
 }
 
+pub const HEADER_PR: &str =
+    "From Coq Require Import QArith.\nFrom LV Require Import Base.Prelude Model.Parser Model.Printer Run.C17.\nOpen Scope Z_scope.";
+
+/// shape of a number text the round-trip theorem assumes: [-] digits* [. digits*] [(e|E) [-] digits*], non-empty
+fn num_shape(s: &str) -> bool {
+    let b: Vec<char> = s.chars().collect();
+    if b.is_empty() {
+        return false;
+    }
+    let mut i = 0;
+    if b[i] == '-' {
+        i += 1;
+    }
+    while i < b.len() && b[i].is_ascii_digit() {
+        i += 1;
+    }
+    if i < b.len() && b[i] == '.' {
+        i += 1;
+        while i < b.len() && b[i].is_ascii_digit() {
+            i += 1;
+        }
+    }
+    if i < b.len() && (b[i] == 'e' || b[i] == 'E') {
+        i += 1;
+        if i < b.len() && b[i] == '-' {
+            i += 1;
+        }
+        while i < b.len() && b[i].is_ascii_digit() {
+            i += 1;
+        }
+    }
+    i == b.len()
+}
+
+fn gtext(s: &str) -> String {
+    glist(s.chars().map(|c| format!("{}", c as u32)))
+}
+
+/// printed paths: the text goes through the parser model like any other string (run_case), and
+/// the printer model must produce the same text from the path's events (numbers as their texts)
+fn printed_cases(args: &Args, id: &mut usize, w: &mut ShardWriter, wpr: &mut ShardWriter, st: &mut Stats, idx: &mut std::fs::File) {
+    let mut rng = Rng::new(args.seed ^ 0x1771);
+    let n_paths = if args.thorough() { 2500 } else { 320 };
+    for _ in 0..n_paths {
+        let n = rng.below(3) as usize;
+        let val = |r: &mut Rng| -> f32 {
+            match r.below(5) {
+                0 => *r.pick(&[0.0f32, -0.0, 1.0, -1.5, 1e-7, 1e16, 16777216.0, 0.1, 123456.79, -2.5e-5, 3.0e20]),
+                1 => r.range(-100, 100) as f32,
+                2 => (r.unit_f64() * 2e-4 - 1e-4) as f32,
+                3 => (r.unit_f64() * 2e9 - 1e9) as f32,
+                _ => (r.unit_f64() * 200.0 - 100.0) as f32,
+            }
+        };
+        let mut b = Path::builder_with_attributes(n);
+        let nsub = rng.below(4);
+        for _ in 0..nsub {
+            let a: Vec<f32> = (0..n).map(|_| val(&mut rng)).collect();
+            b.begin(point(val(&mut rng), val(&mut rng)), &a);
+            for _ in 0..rng.below(4) {
+                let a: Vec<f32> = (0..n).map(|_| val(&mut rng)).collect();
+                match rng.below(3) {
+                    0 => {
+                        b.line_to(point(val(&mut rng), val(&mut rng)), &a);
+                    }
+                    1 => {
+                        b.quadratic_bezier_to(point(val(&mut rng), val(&mut rng)), point(val(&mut rng), val(&mut rng)), &a);
+                    }
+                    _ => {
+                        b.cubic_bezier_to(point(val(&mut rng), val(&mut rng)), point(val(&mut rng), val(&mut rng)), point(val(&mut rng), val(&mut rng)), &a);
+                    }
+                }
+            }
+            b.end(rng.chance(1, 2));
+        }
+        let path = b.build();
+        let printed = format!("{:?}", path);
+        let text = printed.trim_matches('"').to_string();
+        // (1) the printed text through the real parser and the parser model
+        run_case(*id, &text, n, None, w, st, idx, "printed");
+        // (2) the printer model on the path's events
+        let t = |v: f32| gtext(&format!("{:?}", v));
+        let tp = |p: Point| format!("({}, {})", t(p.x), t(p.y));
+        let ta = |a: &[f32]| glist(a.iter().map(|v| t(*v)));
+        let mut calls = Vec::new();
+        let mut shapes_ok = true;
+        for e in path.iter_with_attributes() {
+            use lyon_path::Event;
+            match e {
+                Event::Begin { at: (p, a) } => calls.push(format!("PBegin (list Z) {} {}", tp(p), ta(a))),
+                Event::Line { to: (p, a), .. } => calls.push(format!("PLine (list Z) {} {}", tp(p), ta(a))),
+                Event::Quadratic { ctrl, to: (p, a), .. } => calls.push(format!("PQuad (list Z) {} {} {}", tp(ctrl), tp(p), ta(a))),
+                Event::Cubic { ctrl1, ctrl2, to: (p, a), .. } => calls.push(format!("PCubic (list Z) {} {} {} {}", tp(ctrl1), tp(ctrl2), tp(p), ta(a))),
+                Event::End { close, .. } => calls.push(format!("PEnd (list Z) {}", gbool(close))),
+            }
+        }
+        for tok in text.split(' ') {
+            if !tok.is_empty() && !"MLQCZ".contains(tok) && !num_shape(tok) {
+                shapes_ok = false;
+            }
+        }
+        if !shapes_ok {
+            st.fail(jobj(&[("what", jstr("round trip: a printed number does not have the shape the parser's number lexer consumes")), ("input", jstr(&text))]));
+        }
+        st.inc("printer_model_cases");
+        wpr.push(format!("(mkPR {} {} {})", *id, glist(calls.iter().cloned()), gtext(&text)));
+        *id += 1;
+    }
+}
+
 fn roundtrip_checks(args: &Args, st: &mut Stats) {
     let mut rng = Rng::new(args.seed ^ 0x1717);
     let n_paths = if args.thorough() { 6000 } else { 800 };
@@ -450,6 +560,9 @@ fn roundtrip_checks(args: &Args, st: &mut Stats) {
     for _ in 0..(if args.thorough() { 200000 } else { 20000 }) {
         let bits = (rng.next_u64() as u32) & 0x7f7f_ffff | ((rng.below(2) as u32) << 31);
         let v = f32::from_bits(bits);
+        if !num_shape(&fmt_f32(v)) {
+            st.fail(jobj(&[("what", jstr("round trip: a printed f32 does not have the shape the parser's number lexer consumes")), ("input", jstr(&fmt_f32(v)))]));
+        }
         let s = format!("M {} 0", fmt_f32(v));
         let mut rec = Rec { n: 0, calls: vec![] };
         let res = PathParser::new().parse(&ParserOptions::DEFAULT, &mut Source::new(s.chars()), &mut rec);
@@ -507,7 +620,11 @@ pub fn main(args: &Args) -> std::io::Result<()> {
         run_case(id, &s, n_used, stop, &mut w, &mut st, &mut idx, "grammar");
         id += 1;
     }
+    let mut wpr = ShardWriter::new(&args.out, "c17pr_cases", args.shards, HEADER_PR, "print_bad_cases");
+    wpr.disabled = args.direct_only();
+    printed_cases(args, &mut id, &mut w, &mut wpr, &mut st, &mut idx);
     roundtrip_checks(args, &mut st);
     w.finish()?;
+    wpr.finish()?;
     st.write(&args.out.join("c17_stats.json"))
 }
